@@ -68,6 +68,8 @@ type c07Case struct {
 	Hist   []c07Step `json:"hist"`
 	// Opts: "skipdefaults" / "exclreadonly": an option the statement does not mention is set; "nil": no Options at all
 	Opts string `json:"opts"`
+	// PRefs: "path" / "op" / "both": the parameters of that level are $refs to components.parameters
+	PRefs string `json:"prefs"`
 }
 
 func c07Sec(reqs [][]string) []any {
@@ -87,7 +89,9 @@ func c07Sec(reqs [][]string) []any {
 	return out
 }
 
-func c07ParamJSON(ps []c07Param) []any {
+// c07ParamJSON renders the parameters of one level; with comps != nil every parameter is declared under
+// components.parameters and the level holds a $ref to it
+func c07ParamJSON(ps []c07Param, level string, comps map[string]any) []any {
 	out := []any{}
 	for _, p := range ps {
 		sch := map[string]any{"type": "integer"}
@@ -104,6 +108,12 @@ func c07ParamJSON(ps []c07Param) []any {
 		case "reqintd":
 			m["required"] = true
 			sch["default"] = 1
+		}
+		if comps != nil {
+			name := level + "_" + p.In + "_" + p.Name
+			comps[name] = m
+			out = append(out, map[string]any{"$ref": "#/components/parameters/" + name})
+			continue
 		}
 		out = append(out, m)
 	}
@@ -127,13 +137,13 @@ func c07Part(e error) string {
 	return "other"
 }
 
-func c07Op(oparams []c07Param, sec c07SecList, bdecl string) map[string]any {
+func c07Op(oparams []c07Param, sec c07SecList, bdecl string, comps map[string]any) map[string]any {
 	op := map[string]any{"responses": map[string]any{"200": map[string]any{"description": "ok"}}}
 	if !sec.Absent {
 		op["security"] = c07Sec(sec.List)
 	}
 	if len(oparams) > 0 {
-		op["parameters"] = c07ParamJSON(oparams)
+		op["parameters"] = c07ParamJSON(oparams, "op", comps)
 	}
 	if bdecl != "none" && bdecl != "" {
 		op["requestBody"] = map[string]any{"required": bdecl == "required", "content": map[string]any{"application/json": map[string]any{
@@ -144,20 +154,20 @@ func c07Op(oparams []c07Param, sec c07SecList, bdecl string) map[string]any {
 
 // c07Load builds the document of one view (path item /t: path-level parameters, the POST operation, sibling operations
 // under other methods) and loads it through the real loader
-func c07Load(tpath string, pparams []c07Param, ops map[string]any, docSec [][]string) (*openapi3.T, error) {
+func c07Load(tpath string, pparams []c07Param, ops map[string]any, docSec [][]string, pcomps, comps map[string]any) (*openapi3.T, error) {
 	pathItem := map[string]any{}
 	for m, op := range ops {
 		pathItem[m] = op
 	}
 	if len(pparams) > 0 {
-		pathItem["parameters"] = c07ParamJSON(pparams)
+		pathItem["parameters"] = c07ParamJSON(pparams, "path", pcomps)
 	}
 	schemes := map[string]any{}
 	for _, s := range []string{"A", "B", "C"} {
 		schemes[s] = map[string]any{"type": "apiKey", "in": "header", "name": "X-" + s}
 	}
 	doc := map[string]any{"openapi": "3.0.3", "info": map[string]any{"title": "t", "version": "1"},
-		"components": map[string]any{"securitySchemes": schemes},
+		"components": map[string]any{"securitySchemes": schemes, "parameters": comps},
 		"paths":      map[string]any{tpath: pathItem}}
 	if len(docSec) > 0 {
 		doc["security"] = c07Sec(docSec)
@@ -220,16 +230,25 @@ func c07Run(c *Case) []any {
 			rpath = "/t/" + v.Text
 		}
 	}
-	ops := map[string]any{"post": c07Op(tc.OParams, tc.OpSec, tc.BDecl)}
+	// PRefs: the parameters of that level are $refs into components.parameters
+	comps := map[string]any{}
+	var pcomps, ocomps map[string]any
+	if tc.PRefs == "path" || tc.PRefs == "both" {
+		pcomps = comps
+	}
+	if tc.PRefs == "op" || tc.PRefs == "both" {
+		ocomps = comps
+	}
+	ops := map[string]any{"post": c07Op(tc.OParams, tc.OpSec, tc.BDecl, ocomps)}
 	stepMethod := map[int]string{}
 	for i, s := range tc.Hist {
 		if s.Via == "sibling" {
 			m := c07SiblingMethods[len(stepMethod)%len(c07SiblingMethods)]
 			stepMethod[i] = m
-			ops[m] = c07Op(s.OParams, s.OpSec, s.BDecl)
+			ops[m] = c07Op(s.OParams, s.OpSec, s.BDecl, nil)
 		}
 	}
-	d, err := c07Load(tpath, tc.PParams, ops, tc.DocSec)
+	d, err := c07Load(tpath, tc.PParams, ops, tc.DocSec, pcomps, comps)
 	if err != nil {
 		line["doc"] = "error"
 		line["docErr"] = err.Error()
@@ -239,7 +258,7 @@ func c07Run(c *Case) []any {
 	views := map[int]*openapi3.T{}
 	for i, s := range tc.Hist {
 		if s.Via == "share" || s.Via == "edit" {
-			dv, err := c07Load(tpath, s.PParams, map[string]any{"post": c07Op(s.OParams, s.OpSec, s.BDecl)}, s.DocSec)
+			dv, err := c07Load(tpath, s.PParams, map[string]any{"post": c07Op(s.OParams, s.OpSec, s.BDecl, nil)}, s.DocSec, nil, map[string]any{})
 			if err != nil {
 				line["doc"] = "error"
 				line["docErr"] = err.Error()
